@@ -613,7 +613,8 @@ pub fn main(args: &Args) -> i32 {
             report.nontrivial(hash64(&canon));
             let oc = observed_class(&obs);
             report.outcome(&format!("{}: expect {} / got {}", case.kind, short_err(&model_class(&md)), short_err(&oc)));
-            if (mi % 13 == 0 && n % 97 == 5) || (mi == 3 && n == 0) {
+            // a fixed, small selection (independent of thread timing)
+            if mi % 26 == 0 && (n == 5 || n == 102) {
                 report.sample(json!({
                     "case": case_json(&case),
                     "model": model_class(&md),
